@@ -861,3 +861,20 @@ func checkCalleeSig(callee value.Value, sig *types.FuncType) error {
 	}
 	return nil
 }
+
+// checkCallArgs validates the arguments of a call, invoke or callbr against the
+// function type written in it (e.g. `call void (i64) @g(i32 1)` is invalid). The
+// printer derives the callee type of a non-variadic call from the arguments,
+// thus a module in which the two disagree would not be printed as it was
+// parsed.
+func checkCallArgs(sig *types.FuncType, args []value.Value) error {
+	if len(args) < len(sig.Params) || (len(args) > len(sig.Params) && !sig.Variadic) {
+		return errors.Errorf("invalid number of call arguments for function type %q; expected %d, got %d", sig, len(sig.Params), len(args))
+	}
+	for i, param := range sig.Params {
+		if argType := args[i].Type(); !param.Equal(argType) {
+			return errors.Errorf("type mismatch of call argument %d; function type %q expects %q, got %q", i, sig, param, argType)
+		}
+	}
+	return nil
+}
